@@ -59,6 +59,11 @@ CHECKS = {
         text="Specification of the design's validations as a Lean function (Model/Validation.lean: violations, handle) with theorems in Props/C04.lean: the method is invoked iff no rule is broken, a rejection names a broken rule, inclusive vs exclusive bounds at the boundary, lengths in runes, recursion through arrays, map keys and values, nested objects, required vs optional. Tie T5: per design the generated server and client are built and boundary values, wrong JSON types, nulls, out-of-type-range numbers, dropped parameters and invalid results are sent; drv_valid judges each (attribute, value) pair and verdicts are compared with 'service invoked / 400 + error name / client error'.",
         note="The theorems are about the specification; that the code generator implements it is decided per design and value by execution, not by a Lean theorem about codegen/validation.go (gen_correct is future work). Format and pattern verdicts are oracle bits (C17 owns the validators). Unions, views, Extend/Reference, multipart and streaming are not generated yet.",
         ref="DESIGN.md §3 C04", technique="Lean 4 specification + proved gate/boundary/recursion theorems, tied to the generated code by differential execution of generated servers and clients against the Lean driver"),
+    "C05": dict(
+        category="proof",
+        text="Model/ErrorMap.lean: the error-name -> response table of an endpoint after inheritance (method, service, API level), the generated error encoder's dispatch on GoaErrorName with the default encoder (status function translated from http/error.go by gotolean, tie T1), and the generated client's dispatch by status code and goa-error header. Props/C05.lean: a declared error is written with its designed status and name header; the method's mapping wins over the service's, the service's over the API's; a plain error becomes the 500 fault; an undeclared ServiceError gets the status of its flags (full table); the client attributes a declared error to the same name also when several errors share a status; unknown statuses are never attributed to a declared error. Tie T5: scripted errors (declared incl. inherited, custom and primitive types, ServiceErrors with declared names, plain, undeclared/wrapped with all flag combinations) through generated servers and clients, wire and client error compared with drv_errmap, WriteHeader counted.",
+        note="table/encode/clientName are hand-written from expr/http_endpoint.go and the templates (only the status function is translated); their agreement with generated code is established per design by execution. Error types shared by several errors, views on errors, and the goa-attribute-* headers of unmapped ErrorResult attributes are not generated yet; request-decoding error names are covered under C04.",
+        ref="DESIGN.md §3 C05", technique="Lean 4 proof over a model with a translated core (gotolean) + differential execution of generated servers/clients against the Lean driver"),
     "C03": dict(
         category="proof",
         text="Same exchanges as C02, response direction: the result the stub service returns must equal what the generated client hands to the caller, with the designed status code and exactly one WriteHeader; Lean part shared with C02 (string transport of header values, partition).",
